@@ -615,8 +615,19 @@ def spec_check(ck, U, O, line, out, model=None):
         ck.count("crl:cache-" + ("tidy" if O.CO.tidy(O.K) else "untidy"))
         m = re.search(r" rl=(\S+)", out)
         for x in (m.group(1).split(",") if m and m.group(1) != "-" else []): ck.count("crl:status-%s" % x)
-        if acc and not O.CO.tidy(O.K) and any(O.CO.literally_revoked(O.K, c) for c in chain):
-            ck.count("crl:accepted-though-listed-in-a-shadowed-or-stale-authenticated-CRL")
+        if acc and line.startswith("vk "):
+            # the literal clause beyond the cache rule (open findings): a certificate on a signed link of the accepted path is listed in an
+            # authenticated loaded CRL of its issuer name that the cache passes over
+            path = chain + ([found_anchor(out, anchors)] if found_anchor(out, anchors) is not None else [])
+            for i in range(len(path) - 1):
+                ex = O.CO.literal_exception(O.K, path[i]) if path[i]["iss"] == path[i + 1]["subj"] else None
+                if ex:
+                    ck.count("crl:accepted-" + ex)
+                    ck.spec_violation("revoked-accepted:%s:graph" % ex,
+                                      {"shadowed": "a certificate listed in an authenticated loaded CRL is accepted: an earlier cached CRL with the same issuer name shadows it (only the first CRL per issuer name is consulted)",
+                                       "stale": "a certificate listed in an authenticated loaded CRL is accepted: the CRL is past nextUpdate, CRL_CHECK_CRL_EXPIRED is reported and the revocation is not applied"}[ex],
+                                      dict(rep, expected_by_spec="reject (literal clause: no certificate revoked by an authenticated CRL the application loaded)"))
+                    break
     if not anchors:
         # chain-only call: success must mean an internally signed chain ending in a genuinely self-signed certificate
         ok = O.self_contained(chain) and all(O.valid_now(rv, c) for c in chain)
@@ -665,7 +676,8 @@ def run(ck):
                        "the leaf's authStatus is 0 when validation starts (freshly parsed)",
                        "TBS digest and signature value identify a certificate (collision resistance): a copy of a certificate stands for it",
                        "revocation: serial numbers are DER (minimal INTEGER octets) in certificates and CRL entries; the literal clause (no authenticated loaded CRL lists the certificate) "
-                       "is proved for a tidy cache - one CRL per issuer name, none past nextUpdate (c03_revocation; c03_revocation_shadowed/stale_refuted show why); "
+                       "is proved for a tidy cache - one CRL per issuer name, none past nextUpdate (c03_revocation); the two exceptions (c03_revocation_shadowed_refuted, c03_revocation_stale_refuted) "
+                       "are listed open findings C03-crl-shadowed / C03-crl-stale (signatures revoked-accepted:shadowed:* / revoked-accepted:stale:*), emitted whenever a run meets them; "
                        "the CRL of the top certificate's issuer must have been authenticated by the application (only chain parents authenticate on the fly)",
                        "converse direction: supported features as in ChainSpec.supported_path (CA keyUsage present or pre-RFC3280, key identifiers agree, "
                        "critical EKU allows TLS, the first trust anchor that answers for the top certificate is the genuine one)"]
@@ -817,14 +829,18 @@ def run(ck):
             acc = int(m.group(1)) == 0 and all(x == "1" for x in m.group(2).split(","))
             v = DO.verdict(meta)
             ck.add_distinct("rv" + l[:0] + str(hash(l)))
-            ck.count("rv:" + ("accept" if acc else "reject") + ("/revoked" if v["revoked"] else "/clear") + ("" if v["tidy"] else "/untidy"))
+            ck.count("rv:" + ("accept" if acc else "reject") + ("/revoked" if v["revoked"] else "/clear") + ("" if v["tidy"] else "/untidy") + ("/" + v["exception"] if v["exception"] else ""))
             if v["nonminimal"]:
                 ck.count("rv:non-DER-serial-involved"); continue
-            if not v["tidy"]:
-                if acc and v["revoked"]: ck.count("rv:accepted-though-listed-in-a-shadowed-or-stale-authenticated-CRL")
-                continue
             rep = {"harness": "h_chain", "case": l[:300] + "...", "full_case": l, "observed": o,
                    "chain_serials": [c.serial.hex() for c in meta["chain"]], "crls": [[s.hex() for s in c03pki_crl(d).serials] + [by, mode] for d, by, mode in meta["crls"]]}
+            if acc and not v["revoked"] and v["exception"]:
+                ck.count("rv:accepted-" + v["exception"])
+                ck.spec_violation("revoked-accepted:%s:der" % v["exception"],
+                                  {"shadowed": "matrixValidateCerts accepts a certificate listed in an authenticated loaded CRL: an earlier cached CRL with the same issuer name shadows it",
+                                   "stale": "matrixValidateCerts accepts a certificate listed in an authenticated loaded CRL: the CRL is past nextUpdate (status 11 reported, revocation not applied)"}[v["exception"]],
+                                  dict(rep, expected_by_spec="reject (literal clause)"))
+                continue
             if acc and v["revoked"]:
                 ck.spec_violation("revoked-accepted:" + "+".join(sorted(set(v["shapes"]))),
                                   "matrixValidateCerts accepts a chain although an authenticated CRL the application loaded under the issuer's name lists the certificate's serial number",
